@@ -477,8 +477,8 @@ Emit == phase \in { "done", "sdone" } => EmitRecord(rec)
 \*        wcs (which choices a nonce generation after KeyAgg has: 1 = pass the cache, 0 = do not) ]
 SessCfgsReal ==
   IF Thorough
-  THEN { [ ds |-> << KeyOf(4), KeyOf(5) >>, tws |-> << << 1, Rnd32(51) >> >>, msg |-> Rnd32(52), adt |-> Zero, inj |-> << >>, wcs |-> { 0, 1 } ],
-         [ ds |-> << KeyOf(4), KeyOf(4), KeyOf(6) >>, tws |-> << << 1, Rnd32(53) >>, << 0, Rnd32(54) >> >>, msg |-> Rnd32(55),
+  THEN { [ ds |-> << KeyOf(4), KeyOf(5) >>, tws |-> << << 1, Rnd32(51) >>, << 0, Rnd32(57) >> >>, msg |-> Rnd32(52), adt |-> Zero, inj |-> << >>, wcs |-> { 0, 1 } ],
+         [ ds |-> << KeyOf(4), KeyOf(4), KeyOf(6) >>, tws |-> << << 1, Rnd32(53) >> >>, msg |-> Rnd32(55),
            adt |-> RndScalar(56), inj |-> << >>, wcs |-> { 1 } ] }
   ELSE { [ ds |-> << KeyOf(4), KeyOf(5) >>, tws |-> << << 1, Rnd32(51) >> >>, msg |-> Rnd32(52), adt |-> RndScalar(56), inj |-> << >>, wcs |-> { 1 } ] }
 SessCfgsTiny ==
